@@ -14,6 +14,12 @@ import checks_text
 import checks_gser
 import checks_history
 import checks_stateless
+import checks_framing
+import checks_checkers
+import checks_comments
+import checks_arrange
+import checks_cache
+import checks_cgen
 
 
 def c01(tier, seed):
@@ -43,9 +49,13 @@ def c06(tier, seed):
                                     'thorough': (['tests/test_oer.py', 'tests/test_codecs_consistency.py'], 'not c_source')})
 
 
-REPLAYERS = {'C18': lambda rp, seed: checks_stateless.replay_c18(rp, seed), 'C13': lambda rp, seed: checks_history.c13_replay(rp, seed), 'C20': lambda rp, seed: checks_gser.c20_replay(rp['_path'], seed)}
+REPLAYERS = {'C11': checks_checkers.replay_c11, 'C12': checks_checkers.replay_c12, 'C14': checks_comments.replay, 'C19': checks_arrange.replay, 'C17': checks_cache.replay_c17,
+             'C09': lambda rp, seed: checks_cgen.replay('C09', rp, seed), 'C10': lambda rp, seed: checks_cgen.replay('C10', rp, seed),
+             'C18': lambda rp, seed: checks_stateless.replay_c18(rp, seed), 'C13': lambda rp, seed: checks_history.c13_replay(rp, seed), 'C20': lambda rp, seed: checks_gser.c20_replay(rp['_path'], seed)}
 
-CHECKS = {'C18': checks_stateless.c18, 'C13': checks_history.c13, 'C20': checks_gser.c20, 'C02': checks_text.c02, 'C08': checks_fuzz.c08, 'C07': checks_extend.c07, 'C06': c06, 'C05': c05, 'C01': c01, 'C03': c03, 'C16': c16}
+CHECKS = {'C04': checks_framing.c04, 'C15': checks_framing.c15, 'C11': checks_checkers.c11, 'C12': checks_checkers.c12, 'C14': checks_comments.c14,
+          'C19': checks_arrange.c19, 'C17': checks_cache.c17, 'C09': checks_cgen.c09, 'C10': checks_cgen.c10,
+          'C18': checks_stateless.c18, 'C13': checks_history.c13, 'C20': checks_gser.c20, 'C02': checks_text.c02, 'C08': checks_fuzz.c08, 'C07': checks_extend.c07, 'C06': c06, 'C05': c05, 'C01': c01, 'C03': c03, 'C16': c16}
 
 
 def setup():
